@@ -128,6 +128,8 @@ def run(check, an: Analysis):
     check.rule('C', 'claim never waits before taking; unavailable => ResourcesUnavailable')
     check.rule('G', 'forced close: GeneratorExit branch suspension free, both compensations '
                     'dispatched')
+    check.rule('Z', 'initial levels: a share made by borrow/claim starts empty (entering it '
+                    'moves the debits in); a root supply starts with its declared levels')
     check.rule('T', 'generated ResourceLevels operators use their own symbol; comparisons '
                     'are conjunctions over all fields')
     for qn in (BASE, BORROWED, CLAIMED, CAPACITIES, RESOURCES, TRACKED):
@@ -318,6 +320,38 @@ def run(check, an: Analysis):
     check.instance('C', 'claim:never-waits', n_raise > 0, where_fn(claim.fn),
                    'no path of claim suspends before taking (%d paths)' % len(paths),
                    analysed=len(paths))
+    # ---- Z ------------------------------------------------------------------
+    # a share that is entered (made by borrow/claim) starts empty: __aenter__ moves its
+    # debits in, __aexit__ moves them out; a root supply starts with its whole supply
+    made = set()
+    for base in [BASE] + an.p.subclasses(BASE):
+        for name in ('borrow', 'claim'):
+            method = an.p.find_method(base, name)
+            if method is None:
+                continue
+            for path in an.paths(Callee(method, base)):
+                for event in path.events:
+                    for ext in event.get('externals') or ():
+                        if ext[0] == 'construct' and an.p.is_subclass(ext[1], BORROWED):
+                            made.add(ext[1])
+    for qn in sorted(made):
+        owner, values = _initial_value(an, qn, '_available')
+        ok = bool(values) and values <= {'Tracked(self._levels_type())', 'Tracked(self._zero)',
+                                        'Tracked(self._resources._levels_type())'}
+        check.instance('Z', '%s:starts-empty' % qn.rsplit('.', 1)[-1], ok,
+                       where_fn(owner) if owner else '', 'a share handed out by borrow/claim '
+                       'holds nothing before it is entered: %s' % sorted(values))
+    check.instance('Z', 'shares-found', made >= {BORROWED, CLAIMED},
+                   where_fn(an.method(BASE, 'borrow')),
+                   'borrow/claim make %s' % sorted(q.rsplit('.', 1)[-1] for q in made))
+    for qn in (CAPACITIES, RESOURCES):
+        owner, values = _initial_value(an, qn, '_available')
+        check.instance('Z', '%s:starts-full' % qn.rsplit('.', 1)[-1],
+                       bool(values) and all(v.startswith('Tracked(') for v in values)
+                       and not values & {'Tracked(self._levels_type())',
+                                         'Tracked(self._zero)'},
+                       where_fn(owner) if owner else '',
+                       'a root supply starts with its declared levels: %s' % sorted(values))
     # ---- T ------------------------------------------------------------------
     _check_templates(check, an)
     check.stats.update(an.stats())
@@ -508,3 +542,34 @@ def _check_templates(check, an: Analysis):
             ok = sources == {names_param}
         check.instance('T', 'template:%s:all-fields' % maker, ok, where_fn(fn),
                        'generated code runs over all field names: %s' % sorted(sources))
+
+
+def _initial_value(an: Analysis, cls_qn: str, attr: str):
+    """
+    (defining __init__, texts of the value ``self.<attr>`` holds when construction of a
+    ``cls_qn`` ends): the last store on the paths of the most derived ``__init__`` that
+    stores the attribute after calling up, else what the inherited ``__init__`` leaves
+    """
+    target = 'self.%s' % attr
+    for entry in an.p.classes[cls_qn].mro:
+        info = an.p.classes.get(entry)
+        init = info.methods.get('__init__') if info else None
+        if init is None:
+            continue
+        values, silent = set(), False
+        for path in an.paths(Callee(init, cls_qn)):
+            if not path.normal:
+                continue
+            stores = [(i, e) for i, e in enumerate(path.events)
+                      if e.kind == 'store' and e.get('path') == target and e.depth == 0]
+            if not stores:
+                silent = True
+                continue
+            index, event = stores[-1]
+            value = event.data.get('value')
+            values.add('?' if value is None else rules.value_text(path, index, value))
+        if values and not silent:
+            return init, values
+        if values:
+            return init, values | {'<inherited>'}
+    return None, set()
